@@ -35,6 +35,7 @@ def run(ctx):
     keyword_terminals_one_line(ctx)
     single_statement_files(ctx)
     first_line_indentation(ctx)
+    file_tag_ignores_trailing_blanks(ctx)
     v1_continuation_skips_blank_lines(ctx)
     docstring_count_ignores_comments(ctx)
 
@@ -504,6 +505,31 @@ def v1_continuation_skips_blank_lines(ctx):
                   "the continuation line is looked for past blank lines, within the bounds of the file" if ok else
                   "the next RAW line is appended as the continuation even when it is blank%s: a blank line after `user a or` silently turns the statement into an intent named `a or`"
                   % ("" if bounded else " and the loop condition `A and B or C` is not bounded by the file length"), line=w.lineno)
+
+
+def file_tag_ignores_trailing_blanks(ctx):
+    """`trailing whitespace never changes the flows a file parses to`: the file-level tag `# meta: exclude from llm` is found with a regular expression over the raw text and
+    ends up in every flow's file_info.  The pattern (a constant) is evaluated here on the tag line with and without trailing blanks / a tab: both must match."""
+    P2 = "nemoguardrails/colang/v2_x/lang/parser.py"
+    t = ctx.tree.ast(P2)
+    fn = find_function(t, "_contains_exclude_from_llm_tag")
+    if fn is None:
+        raise AnalysisError("_contains_exclude_from_llm_tag not found", anchor=P2 + "::_contains_exclude_from_llm_tag")
+    pats = [a.value.value for a in ast.walk(fn) if isinstance(a, ast.Assign) and isinstance(a.value, ast.Constant) and isinstance(a.value.value, str)] + \
+           [c.args[0].value for c in ast.walk(fn) if isinstance(c, ast.Call) and src(c.func).startswith("re.") and c.args and isinstance(c.args[0], ast.Constant) and isinstance(c.args[0].value, str)]
+    ctx.floor("C13.layout.file-tag", P2, "pattern of the exclude-from-llm tag", len(pats), 1)
+    for pat in pats[:1]:
+        try:
+            rx = re.compile(pat, re.MULTILINE)
+        except re.error as e:
+            ctx.check("C13.layout.file-tag", P2, "_contains_exclude_from_llm_tag", "tag pattern", False, "the pattern does not compile: %s" % e, line=fn.lineno)
+            continue
+        base = "flow a\n  match X()\n# meta: exclude from llm%s\nflow b\n  match Y()\n"
+        plain = bool(rx.search(base % ""))
+        ok = plain and all(bool(rx.search(base % tail)) for tail in ("  ", "\t", " \t "))
+        ctx.check("C13.layout.file-tag", P2, "_contains_exclude_from_llm_tag", "tag line with trailing white space", ok,
+                  "the tag is recognised with and without trailing blanks" if ok else
+                  "the pattern `%s` does not match the tag line when blanks or a tab follow it: trailing white space flips exclude_from_llm of every flow of the file" % pat, line=fn.lineno)
 
 
 def c_regexes(ctx):
